@@ -153,7 +153,7 @@ Lemma dstep_sound dm conc s t dm' :
   D dm' (fst (sstep fl defttl conc t (t_op s))) /\ out_sim (snd (sstep fl defttl conc t (t_op s))) (t_out s).
 Proof.
   intros HD Hs Ha Ht. unfold dstep in Hs.
-  destruct (t_op s) as [k v ttl|k v ttl|k v ttl|k|k| | | | |data];
+  destruct (t_op s) as [k v ttl|k v ttl|k v ttl|k|k| | | | |data|data];
     destruct (t_out s) as [|bo|[[gv gd]|]|n|l]; try discriminate; simpl.
   - (* Set *) inversion Hs; subst dm'. split; [|exact I]. apply D_put; auto. now apply in_range_new'.
   - (* SetIfAbsent *) destruct bo.
@@ -188,6 +188,7 @@ Proof.
     inversion Hs; subst dm'. split; [exact HD|]. simpl.
     apply (list_eqb_eq kv_eqb kv_eqb_eq) in El. rewrite <- El. symmetry. now apply D_kv.
   - (* Restore *) split; [|exact I]. eapply drestore_sound; eauto. constructor.
+  - (* Load *) split; [|exact I]. eapply drestore_sound; eauto.
 Qed.
 
 Lemma drun_sound tr : forall ts dm conc, D dm conc -> drun g defttl dm tr = true -> within tr ts ->
